@@ -1,6 +1,7 @@
 //! Shared generators (proptest strategies).
 pub mod annot;
 pub mod faultsave;
+pub mod grid;
 pub mod style;
 pub mod text;
 pub mod wb;
